@@ -107,6 +107,31 @@ Definition sleep_sites_with_island : list string :=
   dedup (map fst (filter (fun q => mem "DisableBit.ISLAND" (snd q)) sleep_guard_sites)).
 Definition sleep_sites_without_island : list string :=
   dedup (map fst (filter (fun q => negb (mem "DisableBit.ISLAND" (snd q))) sleep_guard_sites)).
+(* committed: the functions that may test SLEEP alone, each harmless when SLEEP is enabled with ISLAND disabled
+   (then no function of sleep_must_test_island runs the sleep path, so no tree is ever put to sleep):
+   - collision_driver.sap_broadphase / nxn_broadphase specialise the broadphase kernel with a filter that skips a
+     pair only if one of its bodies is ASLEEP in d.body_awake; make_data / put_data / reset_data initialise every
+     body AWAKE or STATIC and only sleep.sleep (called under `sleep_enabled`, which includes the ISLAND bit)
+     writes ASLEEP; the incremental second pass is requested by forward.fwd_position under sleep_enabled only;
+   - io.reset_data calls sleep.update_sleep after the reset, which recomputes the awake index lists from
+     tree_asleep (all awake) - the values make_data stores anyway.
+   Replayed on the real code by bin/props/C32.py (step, reset_data, step with SLEEP enabled and ISLAND disabled
+   against MuJoCo, contacts present). *)
+Definition sleep_only_harmless : list string :=
+  ["collision_driver.sap_broadphase"; "collision_driver.nxn_broadphase"; "io.reset_data"].
+(* the functions that choose the sleep code path, allocate for it or consume its arrays: they must all use the
+   same predicate SLEEP-and-not-ISLAND (solver.solve did not before /repo 783455b: finding
+   C32:solver.solve:sleep-enabled-island-disabled-crash) *)
+Definition sleep_must_test_island : list string :=
+  ["solver.solve"; "io.make_data"; "io.put_data"; "forward.forward"; "forward.fwd_kinematics";
+   "forward.fwd_position"; "forward.fwd_acceleration"; "forward._advance"].
+(* every direct test of EnableBit.SLEEP (outside put_model's rejections) also tests ISLAND in the same
+   expression or sits in a function of the harmless list; the path-choosing functions test both bits and never
+   SLEEP alone; the harmless list has no stale entry *)
+Definition sleep_guard_ok : bool :=
+  forallb (fun q => mem "DisableBit.ISLAND" (snd q) || mem (fst q) sleep_only_harmless) sleep_guard_sites &&
+  forallb (fun f => mem f sleep_sites_with_island && negb (mem f sleep_sites_without_island)) sleep_must_test_island &&
+  forallb (fun f => mem f sleep_sites_without_island) sleep_only_harmless.
 
 (* ====================================================================================== *)
 (* 3. information flow over event lists                                                      *)
